@@ -164,6 +164,17 @@ func cmdReplay(args []string) int {
 		fmt.Println("no bounded stand-in named", rf["name"])
 		return 2
 	}
+	if rp, ok := rf["replay"].(map[string]interface{}); ok && rp["test_source"] != nil && rp["package"] != nil {
+		// the solver's counterexample as a generated in-package test: run it again on the current tree
+		verdict, out := runModelReplay("/repo", fmt.Sprint(rp["package"]), fmt.Sprint(rp["test_source"]))
+		fmt.Printf("obligation %v of %v\nstatement: %v\nreplay of the recorded counterexample on the current tree: %s: %s\n", rf["obligation"], rf["function"], rf["statement"], verdict, out)
+		if verdict == "property-violated" {
+			fmt.Printf("REPLAY property=%v: the recorded input still violates the property on the current tree\n", rf["property"])
+			return 1
+		}
+		fmt.Printf("REPLAY property=%v: the recorded input does not violate the clause on the current tree (%s)\n", rf["property"], verdict)
+		return 0
+	}
 	fmt.Printf("obligation %v (%v) of %v: recorded status %v by %v\nstatement: %v\nSMT-LIB query: %v\n", rf["obligation"], rf["kind"], rf["function"], rf["status"], rf["solver"], rf["statement"], rf["smt2"])
 	if m, ok := rf["model"].(map[string]interface{}); ok && len(m) > 0 {
 		fmt.Println("counterexample (pre-state values from the solver model):")
